@@ -116,6 +116,9 @@ type RawPeer struct {
 	C    *rpc2.Client
 	mu   sync.Mutex
 	msgs []Notification
+	// Hold, when set (before the first notification), is called with every notification
+	// after it was recorded and before it is acknowledged: a slow peer.
+	Hold func(Notification)
 }
 
 // DialRaw connects a raw peer to a unix socket.
@@ -130,8 +133,13 @@ func DialRaw(sock string) (*RawPeer, error) {
 		method := m
 		p.C.Handle(method, func(_ *rpc2.Client, args []json.RawMessage, reply *[]interface{}) error {
 			p.mu.Lock()
-			p.msgs = append(p.msgs, Notification{Method: method, Params: append([]json.RawMessage{}, args...)})
+			n := Notification{Method: method, Params: append([]json.RawMessage{}, args...)}
+			p.msgs = append(p.msgs, n)
+			hold := p.Hold
 			p.mu.Unlock()
+			if hold != nil {
+				hold(n)
+			}
 			*reply = []interface{}{}
 			return nil
 		})
